@@ -108,6 +108,17 @@ def _burst(rnd, full=False):
             pass
         for cs in p.callstacks(io.BytesIO(blob), table):
             pass
+        # ANOTHER object of the caller: its option lists are the ones it was created with, extended IN PLACE (never assigned);
+        # its tables are filled by hand.  Nothing of this may show on the objects the checks create afterwards
+        q = PyKdebugParser()
+        q.filter_class.append(rnd.choice([4, 1, 7]))
+        q.filter_subclass.append(rnd.choice([0x0140, 0x040c]))
+        q.threads_pids[rnd.choice([1, 77, 0x1234])] = 4242
+        q.pids_names[4242] = 'decoy'
+        q.dyld_addresses.append(0x100000000)
+        q.dyld_uuids.append('DECOY')
+        for ln in q.formatted_kevents(io.BytesIO(blob), table):
+            pass
     except Exception:
         pass
     try:
